@@ -1,4 +1,5 @@
 import TaskModel.Remote.Model
+import TaskModel.Remote.Chain
 import Driver.Util
 namespace Driver.Remote
 open TaskModel.Remote Driver
@@ -58,10 +59,64 @@ def doRun (legacy : Bool) : List String → Option String
     some (" ; ".intercalate (obs.map fun (res, es) => " ".intercalate (showResult res :: es.map showEntry)))
   | _ => none
 
+def parseServer (sk : String) (sa : Nat) : Option Server :=
+  match sk with
+  | "0" => some (Server.serve sa)
+  | "1" => (match sa with
+    | 0 => some (Server.fail .refused) | 1 => some (Server.fail .notFound)
+    | 2 => some (Server.fail .getError) | _ => none)
+  | "2" => some (Server.slow sa)
+  | _ => none
+
+def parseAnswer : String → Option Answer
+  | "0" => some Answer.accept | "1" => some Answer.decline | "2" => some Answer.noTerminal
+  | _ => none
+
+/-- one chain step = the 14 tokens of a step (node 1) + `server2Kind server2Arg answer2` (node 2) -/
+def parseCSteps : Nat → List String → Option (List CStep)
+  | 0, [] => some []
+  | 0, _ => none
+  | n+1, r => do
+    if r.length < 17 then none else
+    let base ← parseStep (r.take 14)
+    match (r.drop 14).take 3 with
+    | [sk, sa, ans] =>
+      let sa ← sa.toNat?
+      let server ← parseServer sk sa
+      let answer ← parseAnswer ans
+      let rest ← parseCSteps n (r.drop 17)
+      some (⟨base, ⟨server, answer⟩⟩ :: rest)
+    | _ => none
+
+/-- the harness's content numbering: `c = v + 10·k`; `k = 0`: includes nothing; `k = 1, 3`: includes
+URL 0 (http `/aa`, by a relative / an absolute reference); `k = 2, 4`: includes URL 1 (http `/bb`) -/
+def incOf (c : Content) : Option Url :=
+  match c / 10 with
+  | 1 => some ⟨0, false⟩ | 3 => some ⟨0, false⟩
+  | 2 => some ⟨1, false⟩ | 4 => some ⟨1, false⟩
+  | _ => none
+
+def showCResult : CResult → String
+  | .run c1 none => "run:" ++ toString c1
+  | .run c1 (some c2) => "run:" ++ toString c1 ++ "+" ++ toString c2
+  | .cleared => "cleared"
+  | .error code => "err:" ++ toString code
+
+/-- `remote.chain <nUrls> <nSteps> <cstep>*` → per step `<result> <entry>{nUrls}` (`Chain.invokeChain`,
+`sha` = identity, `inc` = `incOf`) -/
+def doChain : List String → Option String
+  | k :: n :: r => do
+    let k ← k.toNat?; let n ← n.toNat?
+    let steps ← parseCSteps n r
+    let obs := observeChain false id incOf k RState.init steps
+    some (" ; ".intercalate (obs.map fun (res, es) => " ".intercalate (showCResult res :: es.map showEntry)))
+  | _ => none
+
 def handle (op : String) (args : List String) : Option String :=
   match op with
   | "remote.run" => doRun false args
   | "remote.legacy" => doRun true args
+  | "remote.chain" => doChain args
   | _ => none
 
 end Driver.Remote
